@@ -94,6 +94,7 @@ ResetTo(s,q,o) == LET c == Collapse(s,q,o)
                       v == IF o = 1 THEN TLCEval([i \in Idx(s) |-> c[Flip(i,q)]]) ELSE c
                   IN [s EXCEPT !.vec = v, !.meas[q] = FALSE]
 
+BasisOnly == FALSE   \* (TRUE in QBasis: classes whose destructor leaves the computational basis are not instantiated there)
 BasisOf(s) == -1     \* (QBasis, the basis-state restriction of this module, reports the state's index here)
 
 Gates1   == {"h","x","y","z"}
